@@ -420,8 +420,13 @@ C01_LaneReverted ==
 C01_HealthyComplete ==
   Quiescent => \A c \in Changes : c \notin aborted =>
      \A t \in TasksOf(c) \ AffectedBy(Seeds(c), c) : status[t] = "Done"
-\* (e) reverse order: an undo never starts while a task that waited on it is pending/running -> c02bad
-C01 == C01_SettlesError /\ C01_WaitersHeld /\ C01_LaneReverted /\ C01_HealthyComplete /\ ~c02bad
+\* (e) a task all of whose lanes contain a failed task is in no healthy lane: it does not stay done
+C01_AllLanesFailed ==
+  Quiescent => \A t \in Tasks :
+     (\A l \in Range(lanes[t]) : \E f \in (failedDo \cup failedUndo) \ {t} : chgOf[f] = chgOf[t] /\ l \in Range(lanes[f]))
+       => (status[t] # "Done" \/ ~hasUndo[t] \/ t \notin everDone)
+\* (f) reverse order: an undo never starts while a task that waited on it is pending/running -> c02bad
+C01 == C01_SettlesError /\ C01_WaitersHeld /\ C01_LaneReverted /\ C01_HealthyComplete /\ C01_AllLanesFailed /\ ~c02bad
 
 \* C02 ------------------------------------------------------------------
 C02 == ~c02bad
